@@ -547,7 +547,7 @@ def resync_oracle(data: str) -> str:
     return data[r:] if r >= 0 else ""
 
 
-def constructed_buffer(it, p, text):
+def constructed_buffer(it, p, text, only=None):
     """A Buffer produced by abstractly running its real constructor against a registry that holds exactly the three
     catalogue tags (GetProperties, the top-level OneLight, SetLightVector - seeded through the real register decorator),
     then filled with ``text`` through the public append().  Whatever the constructor derives from the tag list exists
@@ -558,6 +558,8 @@ def constructed_buffer(it, p, text):
     regs = [p.cls("indi.message.get_properties.GetProperties"), p.cls("indi.message.one_light.OneLight"), p.cls("indi.message.sets.SetLightVector")]
     if [lower(c.name) for c in regs] != CAT_TAGS:
         raise Undecided("catalogue tags do not match the message classes")
+    if only is not None:
+        regs = [c for c in regs if lower(c.name) in only]
     saved = dict(it.opts)
     n = len(it.events)
     try:
@@ -771,55 +773,91 @@ def check_discard(ctx, rule):
 
 
 def check_tags(ctx, rule):
+    """The framing's known tags are the parser's registry, not a second list: the same buffer content is resynchronised
+    under a registry of three message classes and under a registry holding only one of them - what counts as a known
+    start tag must follow."""
     p = ctx.p
-    B = buf_cls(p)
-    init = B.methods["__init__"]
-    paths = run_method(p, init)
-    ok = False
-    for pa in paths:
-        for e in pa.events:
-            if e.kind == "store" and e.data.get("attr") == "allowed_tags":
-                v = e.data["value"]
-                if isinstance(v, Term) and v.op == "comp" and not v.args[2] and is_call(v.args[0], method="tag_name") and "all_message_classes()" in show(v.args[1]):
-                    ok = True
-    ctx.check(ok, rule, init.short, "known tags = tag_name() of every registered message class", "the framing's known-tag list is not computed from the parser's registry (a second hand-written list can drift)", fi=init, text="allowed-tags")
+    Bc = buf_cls(p)
+    f = Bc.find_method(roles(p)["RESYNC"])
+    init = Bc.methods.get("__init__") or f
+    text = "x<oneLight a='1'><getProperties"
+    got = {}
+    for only in (None, ("getProperties",)):
+        def run(it: Interp, only=only):
+            o = constructed_buffer(it, p, text, only=only)
+            it.run_function(Fn(f, o), [], {})
+            it.left = buffer_text(it, p, o)
+            return Const(None)
+
+        paths = explore(p, run, {"inline": lambda fi, node: fi.cls is Bc, "foreign_model": stringio_model, "max_for": 12, "max_while": 12})
+        ctx.paths_enumerated += len(paths)
+        if len(paths) != 1 or paths[0].outcome != "return" or not isinstance(paths[0].interp.left, Const):
+            ctx.undecided(rule, init.short, "resynchronisation under a reduced registry not decided by constant evaluation", fi=init)
+            return
+        got[only] = paths[0].interp.left.v
+    want = {None: "<oneLight a='1'><getProperties", ("getProperties",): "<getProperties"}
+    ctx.check(got == want, rule, init.short, "known tags = tag names of the registered message classes (decided under two registries)", f"the framing's known-tag list does not follow the parser's registry: with all three catalogue classes registered {text!r} is cut to {got.get(None)!r}, with only GetProperties registered to {got.get(('getProperties',))!r} (expected {want[None]!r} and {want[('getProperties',)]!r}) - a second hand-written list drifts from what the parser accepts", fi=init, text="allowed-tags")
 
 
 def check_append(ctx, rule):
-    p = ctx.p
-    B = buf_cls(p)
-    f = B.find_method("append")
-    paths = run_method(p, f)
-    ok = len(paths) == 1
-    for pa in paths:
-        w = [e for e in pa.events if e.kind == "call" and is_call(e.data["term"], method="write")]
-        if pa.outcome != "return" or len(w) != 1 or len(w[0].data["args"]) != 1 or show(w[0].data["args"][0]) != f.params()[1] or show(w[0].data["term"].args[0]) != "self.buffer.write":
-            ok = False
-    ctx.check(ok, rule, f.short, "writes exactly its argument, once", "Buffer.append does not write exactly its argument once", fi=f, text="append")
-    s = B.find_setter("data")
-    paths = run_method(p, s)
-    ok = len(paths) == 1
-    for pa in paths:
-        st = [e for e in pa.events if e.kind == "store" and e.data.get("attr") == "buffer"]
-        ap = [e for e in pa.events if e.kind == "call" and (is_call(e.data["term"], method="append") or is_call(e.data["term"], method="write"))]
-        if len(st) != 1 or "StringIO()" not in show(st[0].data["value"]) or len(ap) != 1 or show(ap[0].data["args"][0]) != "value" or ap[0].idx < st[0].idx:
-            ok = False
-    ctx.check(ok, rule, s.short, "fresh StringIO, then exactly the assigned text", "the data setter does not replace the buffer by exactly the assigned text", fi=s, text="data-setter")
-    g = B.find_getter("data")
-    paths = run_method(p, g)
-    ctx.check(all(pa.outcome == "return" and show(pa.value) == "self.buffer.getvalue()" for pa in paths), rule, g.short, "returns the whole buffer text", "the data getter does not return the whole buffer text", fi=g, text="data-getter")
-    gl = B.find_getter("data_len")
-    paths = run_method(p, gl)
-    ctx.check(all(pa.outcome == "return" and show(pa.value) in ("self.buffer.tell()", "len(self.data)", "len(self.buffer.getvalue())") for pa in paths), rule, gl.short, "length of the buffer text", "data_len is not the length of the buffer text", fi=gl, text="data-len")
-    # nobody seeks/reads the StringIO, so tell() == length
+    """The buffer as a text accumulator, through its public operations only: append(x) adds x at the end, 'data = x'
+    replaces the text, 'data' shows the whole text and data_len its length - evaluated on every sequence of up to three
+    operations over constant texts on a buffer built by the real constructor (whatever it stores the text in)."""
     import ast
-    bad = []
-    for fi in p.functions:
-        if fi.cls is B:
-            for n_ in ast.walk(fi.node):
-                if isinstance(n_, ast.Call) and isinstance(n_.func, ast.Attribute) and n_.func.attr in ("seek", "read", "readline", "truncate") and "buffer" in ast.unparse(n_.func.value):
-                    bad.append(fi)
-    ctx.check(not bad, rule, f"{B.short} stream position", "the StringIO is only written, so tell() is its length", f"{[b.short for b in bad]} move the StringIO position: data_len (tell()) no longer equals the text length", ci=B, text="seek")
+    import itertools as _it
+    p = ctx.p
+    Bc = buf_cls(p)
+    f = Bc.find_method("append")
+    if f is None or Bc.find_setter("data") is None or Bc.find_getter("data") is None or Bc.find_getter("data_len") is None:
+        raise Undecided("Buffer lacks append / data / data_len")
+    ops = [("append", "<a"), ("append", "b>"), ("append", ""), ("set", "x"), ("set", ""), ("drop1", None)]
+    seqs = [s for k in (1, 2, 3) for s in _it.product(ops, repeat=k)]
+    bad = None
+    n = 0
+    from ..absint import Frame
+    from .common import public_get
+    for seq in seqs:
+        n += 1
+
+        def run(it: Interp, seq=seq):
+            o = constructed_buffer(it, p, "")
+            saved = it.opts.get("foreign_model")
+            it.opts["foreign_model"] = stringio_model
+            it.trace = []
+            try:
+                for kind, arg in seq:
+                    if kind == "append":
+                        it.run_function(Fn(f, o), [Const(arg)], {})
+                    elif kind == "set":
+                        it.exec_block(ast.parse("o.data = v").body, Frame(None, Bc.module, {"o": o, "v": Const(arg)}))
+                    else:
+                        it.exec_block(ast.parse("o.data = o.data[1:]").body, Frame(None, Bc.module, {"o": o}))
+                    it.trace.append((public_get(it, o, "data"), public_get(it, o, "data_len")))
+            finally:
+                if saved is None:
+                    it.opts.pop("foreign_model", None)
+                else:
+                    it.opts["foreign_model"] = saved
+            return Const(None)
+
+        paths = explore(p, run, {"inline": lambda fi, node: fi.cls is Bc, "foreign_model": stringio_model})
+        ctx.paths_enumerated += len(paths)
+        text = ""
+        exp = []
+        for kind, arg in seq:
+            text = text + arg if kind == "append" else (arg if kind == "set" else text[1:])
+            exp.append((text, len(text)))
+        if len(paths) != 1 or paths[0].outcome != "return":
+            bad = (seq, f"not decided by constant evaluation ({len(paths)} paths)", None)
+            break
+        got = [(d.v if isinstance(d, Const) else show(d)[:30], l.v if isinstance(l, Const) else show(l)[:30]) for d, l in paths[0].interp.trace]
+        if got != exp:
+            bad = (seq, got, exp)
+            break
+    if bad is not None and bad[2] is None:
+        ctx.undecided(rule, f.short, f"the operation sequence {bad[0]} is {bad[1]}", fi=f)
+    else:
+        ctx.check(bad is None, rule, f.short, f"{n} sequences of append / data = x / data = data[1:] on constant texts: data and data_len show exactly the accumulated text", f"after {bad and bad[0]} the buffer shows (data, data_len) = {bad and bad[1]}, expected {bad and bad[2]}: received text is lost, duplicated or mis-measured", fi=f, text="append", witness=str(bad and bad[0]))
 
 
 def check_aux(ctx, rule):
